@@ -40,6 +40,10 @@ struct SKey {
     ident: u32,
     proto: u8,
     chan: u8,
+    /// "jitter": the fragments differ in header bits that are NOT part of the stream identity and that a receiver has
+    /// to ignore (IPv4 DSCP/ECN and TTL, IPv6 traffic class / flow label / hop limit, the reserved byte and the two
+    /// reserved bits of the IPv6 fragment header (RFC 8200 4.5: "ignored on reception"), VLAN PCP/DEI)
+    jit: bool,
 }
 
 #[derive(Clone, Copy, Debug, PartialEq, Eq)]
@@ -63,12 +67,13 @@ fn csum16(h: &[u8]) -> u16 {
 fn ipv4_bytes(k: &SKey, off_units: u16, mf: bool, payload: &[u8]) -> Vec<u8> {
     assert!(!k.v6 && off_units < 0x2000);
     let tl = (20 + payload.len()) as u16;
-    let mut h = vec![0x45, 0x00];
+    let j = if k.jit { (off_units as u8).wrapping_mul(5).wrapping_add(if mf { 0 } else { 0x83 }) } else { 0 };
+    let mut h = vec![0x45, j];
     h.extend_from_slice(&tl.to_be_bytes());
     h.extend_from_slice(&(k.ident as u16).to_be_bytes());
     let fo = off_units | if mf { 0x2000 } else { 0 };
     h.extend_from_slice(&fo.to_be_bytes());
-    h.push(64);
+    h.push(64 - (j & 31));
     h.push(k.proto);
     h.extend_from_slice(&[0, 0]);
     h.extend_from_slice(&k.src);
@@ -83,17 +88,28 @@ fn ipv4_bytes(k: &SKey, off_units: u16, mf: bool, payload: &[u8]) -> Vec<u8> {
 fn ipv6_bytes(k: &SKey, frag: Option<(u16, bool)>, payload: &[u8]) -> Vec<u8> {
     assert!(k.v6);
     let pl = (payload.len() + if frag.is_some() { 8 } else { 0 }) as u16;
-    let mut h = vec![0x60, 0, 0, 0];
+    let j = match (k.jit, frag) {
+        (true, Some((o, mf))) => (o as u8).wrapping_mul(5).wrapping_add(if mf { 0 } else { 0x83 }),
+        (true, None) => 0x5a,
+        _ => 0,
+    };
+    let mut h = vec![0x60 | (j >> 4), (j << 4) | (j & 0x0f), j, j ^ 0xff];
+    if !k.jit {
+        h[3] = 0;
+    }
     h.extend_from_slice(&pl.to_be_bytes());
     h.push(if frag.is_some() { 44 } else { k.proto });
-    h.push(64);
+    h.push(64 - (j & 31));
     h.extend_from_slice(&k.src);
     h.extend_from_slice(&k.dst);
     if let Some((off_units, mf)) = frag {
         assert!(off_units < 0x2000);
         h.push(k.proto);
-        h.push(0);
-        let v = (off_units << 3) | if mf { 1 } else { 0 };
+        // reserved byte and reserved bits 1..2 of the offset word: all ones on the last fragment (M = 0) and on every
+        // second other fragment when jitter is on
+        let res = k.jit && (!mf || off_units % 2 == 0);
+        h.push(if res { 0xff } else { 0 });
+        let v = (off_units << 3) | if mf { 1 } else { 0 } | if res { 0b110 } else { 0 };
         h.extend_from_slice(&v.to_be_bytes());
         h.extend_from_slice(&k.ident.to_be_bytes());
     }
@@ -112,7 +128,8 @@ fn frame(k: &SKey, link: Link, ip: Vec<u8>) -> Vec<u8> {
     for (i, v) in k.vlans.iter().enumerate() {
         let et: u16 = if n >= 2 && i == 0 { 0x88a8 } else { 0x8100 };
         f.extend_from_slice(&et.to_be_bytes());
-        f.extend_from_slice(&(v & 0x0fff).to_be_bytes());
+        let pcp_dei: u16 = if k.jit { (((ip.len() as u16) % 8) << 13) | (((i as u16) & 1) << 12) } else { 0 };
+        f.extend_from_slice(&((v & 0x0fff) | pcp_dei).to_be_bytes());
     }
     f.extend_from_slice(&(if k.v6 { 0x86ddu16 } else { 0x0800 }).to_be_bytes());
     f.extend_from_slice(&ip);
@@ -355,15 +372,20 @@ struct Desc {
     units: Vec<usize>,
 }
 
+thread_local! {
+    /// set by `build_scn`: scenarios over the 37 byte payload use header jitter, those over the 40 byte payload do not
+    static JIT: std::cell::Cell<bool> = std::cell::Cell::new(false);
+}
+
 fn key_a() -> SKey {
-    SKey { vlans: vec![], v6: false, src: vec![10, 0, 0, 1], dst: vec![10, 0, 0, 2], ident: 0x1234, proto: 17, chan: 1 }
+    SKey { vlans: vec![], v6: false, src: vec![10, 0, 0, 1], dst: vec![10, 0, 0, 2], ident: 0x1234, proto: 17, chan: 1, jit: JIT.with(|j| j.get()) }
 }
 fn key_c() -> SKey {
     let mut s = vec![0xfd, 0, 0, 0, 0, 0, 0, 0, 0, 0, 0, 0, 0, 0, 0, 1];
     let mut d = s.clone();
     d[15] = 2;
     s[14] = 0;
-    SKey { vlans: vec![], v6: true, src: s, dst: d, ident: 0x0001_1234, proto: 17, chan: 1 }
+    SKey { vlans: vec![], v6: true, src: s, dst: d, ident: 0x0001_1234, proto: 17, chan: 1, jit: JIT.with(|j| j.get()) }
 }
 
 fn parts_bytes(units: &[usize], len: usize) -> Vec<usize> {
@@ -376,6 +398,7 @@ fn parts_bytes(units: &[usize], len: usize) -> Vec<usize> {
 fn build_scn(d: &Desc, tier: Tier) -> Scn {
     let th = tier.is_thorough();
     let depth = if th { 10 } else { 7 };
+    JIT.with(|j| j.set(d.len == 37));
     let parts = parts_bytes(&d.units, d.len);
     let cut = d.units.iter().map(|u| u.to_string()).collect::<Vec<_>>().join("+");
     let mk = |label: &'static str, key: SKey, link: Link, base: u8, len: usize, parts: Vec<usize>, ts: u8| Dg { label, key, link, base, payload: (0..len).map(|i| pat(base, i)).collect(), parts, ts };
@@ -1499,6 +1522,116 @@ fn xcheck_descs(tier: Tier) -> Vec<Desc> {
     v
 }
 
+// ---------------------------------------------------------------------------------------------
+// Miri stage (thorough tier): the same two transition systems at a reduced bound, executed by the Miri interpreter
+// (monitor for uninitialised reads behind `Vec::set_len`, out-of-bounds, provenance), see DESIGN.md 10.2
+
+fn miri_pool_depth() -> usize {
+    std::env::var("EPMC_MIRI_C11_DEPTH").ok().and_then(|s| s.parse().ok()).unwrap_or(4)
+}
+const MIRI_BUF_DEPTH: usize = 2;
+
+fn miri_descs() -> Vec<Desc> {
+    let mut v = vec![];
+    for (len, units) in [(40usize, vec![2usize, 3]), (37, vec![4, 1]), (37, vec![1, 2, 2])] {
+        for di in [0usize, 2, 4, 7] {
+            v.push(Desc { group: Group::Pair(di), len, units: units.clone() });
+        }
+        v.push(Desc { group: Group::V6, len, units: units.clone() });
+        v.push(Desc { group: Group::Fault4, len, units: units.clone() });
+        v.push(Desc { group: Group::Fault6, len, units: units.clone() });
+    }
+    v
+}
+
+/// the case list of the Miri stage: `MIRI-CASE <n> pool <scenario> <first event>` / `MIRI-CASE <n> buf <variant>`
+pub fn miri_list() -> String {
+    let mut out = String::new();
+    let mut n = 0u64;
+    for (i, d) in miri_descs().iter().enumerate() {
+        let mut scn = build_scn(d, Tier::Quick);
+        scn.depth = miri_pool_depth();
+        let init = Node::init(&scn);
+        for e in 0..scn.evs.len() {
+            if init.enabled(&scn, e) {
+                out.push_str(&format!("MIRI-CASE {} pool {} {} ({}: first event {})\n", n, i, e, scn.name, scn.names[e]));
+                n += 1;
+            }
+        }
+    }
+    for v in 0..BUF_UNITS {
+        out.push_str(&format!("MIRI-CASE {} buf {} (IpDefragBuf::add, depth <= {})\n", n, v, MIRI_BUF_DEPTH));
+        n += 1;
+    }
+    out
+}
+
+/// `epmc miri C11 <case file> <shard> <nshards>`: meant to be executed by `cargo +nightly miri run`
+pub fn miri_main(file: &str, shard: (u64, u64)) -> i32 {
+    let text = std::fs::read_to_string(file).unwrap_or_default();
+    let ds = miri_descs();
+    let mut states = 0u64;
+    let r = inproc("C11", |ctx| {
+        for l in text.lines() {
+            let f: Vec<&str> = l.split(' ').collect();
+            if f.len() < 4 || f[0] != "MIRI-CASE" {
+                continue;
+            }
+            let n: u64 = f[1].parse().unwrap_or(0);
+            if n % shard.1 != shard.0 {
+                continue;
+            }
+            println!("MIRI-EXEC {}", n);
+            match f[2] {
+                "pool" => {
+                    let (i, e): (usize, usize) = (f[3].parse().unwrap_or(0), f.get(4).and_then(|x| x.parse().ok()).unwrap_or(0));
+                    if i >= ds.len() {
+                        continue;
+                    }
+                    let mut scn = build_scn(&ds[i], Tier::Quick);
+                    scn.depth = miri_pool_depth();
+                    let init = Node::init(&scn);
+                    let states_ref = &mut states;
+                    ctx.case(
+                        None,
+                        || CaseDesc { shape: format!("miri:{}", scn.group), text: l.to_string(), rank: n },
+                        |case| {
+                            let mut visited: HashSet<(u64, u64)> = HashSet::new();
+                            let mut x = Explorer { scn: &scn, visited: &mut visited, st: Stats::default(), hist: vec![] };
+                            x.deliver(&init, e, case);
+                            *states_ref += x.st.transitions;
+                            report(x.st, "miri", case);
+                        },
+                    );
+                }
+                "buf" => {
+                    let v: usize = f[3].parse().unwrap_or(0);
+                    let states_ref = &mut states;
+                    ctx.case(
+                        None,
+                        || CaseDesc { shape: "miri:buf-model".into(), text: l.to_string(), rank: n },
+                        |case| {
+                            let st = run_buf(v, MIRI_BUF_DEPTH, case);
+                            *states_ref += st.transitions;
+                            report(st, "miri-buf", case);
+                        },
+                    );
+                }
+                _ => {}
+            }
+        }
+    });
+    for (sig, detail, text) in &r.violations {
+        println!("MIRI-VIOLATION\t{}\t{}\t{}", sig, detail.replace('\n', " "), text);
+    }
+    println!("MIRI-DONE cases={} transitions={} violations={}", r.cases, states, r.violations.len());
+    if r.violations.is_empty() {
+        0
+    } else {
+        1
+    }
+}
+
 const BUF_UNITS: u64 = 2;
 
 impl C11 {
@@ -1523,7 +1656,7 @@ impl Check for C11 {
              (pair:<d>) datagram B with the same cut that differs from A in exactly one key component d in {:?}{}, return_buf x2, retain(evict all), retain(evict B); \
              (v4+v6) IPv6 datagram C (fragment extension header, via from_ip), one event delivering 5 non-fragment packets (IPv4 unfragmented with A's id, IPv6 without / with atomic fragment header, ARP, unknown ether type), return_buf x2, evict all, evict C; \
              (fault4/fault6) fault fragments on the stream (second last fragment ending higher, last fragment ending lower, data beyond the end, unaligned non-last fragment, offset+len=65536){}, return_buf (buffer filled with 0xEE first), evict all. \
-             bound: all histories of <= {} deliveries. second model: IpDefragBuf::add with offsets {:?} x lengths {:?} x more_fragments, all sequences of depth <= {} from an empty and from a recycled (0xEE) buffer, merged on (buffer state, reference state). \
+             in all scenarios over the 37 byte payload the fragments additionally differ in header bits outside the stream identity that a receiver ignores (DSCP/ECN, TTL / hop limit, traffic class, flow label, VLAN PCP/DEI, reserved byte and reserved bits of the IPv6 fragment header set). bound: all histories of <= {} deliveries. second model: IpDefragBuf::add with offsets {:?} x lengths {:?} x more_fragments, all sequences of depth <= {} from an empty and from a recycled (0xEE) buffer, merged on (buffer state, reference state). \
              oracle after every delivery: reference pool (byte map + end per stream key, written in the check): Some(payload) exactly on the delivery that covers [0,end) and Ok(None) before; payload and ip_number equal the reference, the original datagram and what a fresh pool returns; set of active streams == reference (completed/evicted streams are gone, duplicates after completion open a fresh stream); end / filled ranges / filled bytes of every stream == reference; all other streams bit-identical before/after; non-fragments return Ok(None) and leave the snapshot unchanged; Err of the documented class exactly for unaligned / too big / conflicting end and nothing changes; evicted buffers appear in the free lists; a stale 0xEE byte in a payload is a leak. \
              Streams whose end was accepted BELOW already buffered data (accepted silently by the crate, outside the property) only need: no panic, no payload other than the single consistent one. \
              a state = (verif_snapshot of the real pool with bytes outside the filled ranges masked, reference pool, lengths of held payloads, multiset of remaining events); states are merged only if all coincide; non-trivial = the pool holds a stream, a pooled buffer or a payload was handed out.",
@@ -1594,6 +1727,21 @@ impl Check for C11 {
             ("stateright_crosscheck_scenarios".into(), xcheck_descs(tier).len().to_string()),
             ("engine".into(), "hand-rolled DFS + visited set (deciding); stateright 0.31 DFS and BFS checker on the cross-check scenarios (unique state and transition counts must be equal)".into()),
         ]
+    }
+    fn post_run(&self, tier: Tier) -> Option<PostRun> {
+        if !tier.is_thorough() || std::env::var("EPMC_NO_MIRI").is_ok() {
+            return None;
+        }
+        Some(crate::props::c01::run_miri_list(
+            "C11",
+            miri_list(),
+            &format!(
+                "the reduced history space ({} scenarios: pairs differing in ident / outer VLAN / channel / IPv6 identification, v4+v6 with pass-through packets, fault4, fault6; cuts 2+3, 4+1, 1+2+2; every history of <= {} deliveries incl. duplicates, return_buf and retain; one case per first event) and IpDefragBuf::add sequences of depth <= {} from an empty and a recycled buffer, with the complete reference-pool oracle",
+                miri_descs().len(),
+                miri_pool_depth(),
+                MIRI_BUF_DEPTH
+            ),
+        ))
     }
     fn run_unit(&self, tier: Tier, u: u64, ctx: &mut Ctx) {
         if u < BUF_UNITS {
